@@ -13,8 +13,13 @@ Ops
   one thread program run against a script of fed results (load values, `ok`/`poisoned`/
   `wouldblock`); prints every access (location, kind, ordering, value stored, result fed)
   and how the call ended.
+* `trace sequence <script>`: `AtomicBaseTime::sequence()` (one relaxed load of the counter): prints
+  `ld.seq.rlx=<v>;ret=<v>`.
 * `machine <sc|ra>`, `start <t> <op…>`, `step <t> <ts>`, `sync <t> <u>`: a whole execution on
   the SC or the view machine (`ts` = timestamp a load reads from; ignored under `sc`).
+  `start <t> sequence` + one `step` ends with `;ret=<n>`.
+* `new_default`: what `AtomicBaseTime::new()` / `Default::default()` build (`SC.init` / `RA.init`):
+  the five words, the mutex, and what a solo `sequence` / `snapshot` return from it.
 * `explore …`: harness-only oracle run (bounded exhaustive search on the real code).
 -/
 namespace Woodpile.Driver.AbtFam
@@ -60,6 +65,7 @@ def fmtAct : Act → String
 
 inductive Kind where
   | snapshot | unlocked | update | tryUpdate
+  | sequence
   deriving DecidableEq
 
 /-- How a finished call is reported (`update` returns `()`). -/
@@ -69,6 +75,9 @@ def fmtEnd (k : Kind) (th : Local) : Option String :=
   | .retBool r => some (if k = .update then "ret" else if r then "ret=true" else "ret=false")
   | .sPanic => some "panic"
   | .aPanic => some "panic"
+  -- BEGIN track apileft (abt): `sequence()` returned the counter value it loaded
+  | .retSeq => some ("ret=" ++ fmtVal th.sq)
+  -- END track apileft (abt)
   | _ => none
 
 def parseOp : List String → Option (Kind × Op × List String)
@@ -82,6 +91,9 @@ def parseOp : List String → Option (Kind × Op × List String)
     match b.toNat?, parseVal v with
     | some b, some v => if b < two64 then some (.tryUpdate, .tryUpdate b v, rest) else none
     | _, _ => none
+  -- BEGIN track apileft (abt)
+  | "sequence" :: rest => some (.sequence, .sequence, rest)
+  -- END track apileft (abt)
   | _ => none
 
 /-- One thread program against a script of fed results. -/
@@ -178,7 +190,53 @@ def stepRa (s : St) (t ts : Nat) : St × List String :=
       | _ => fmtAct act
     ({ s with ra := ra' }, [desc ++ endSuffix (s.kinds t) th'.loc ++ " view=" ++ fmtView th'.view])
 
+-- BEGIN track apileft (abt): `new_default`
+/-- `n` own steps of thread 0 (reading the latest message), SC machine. -/
+def soloSc (sc : SC.State) : Nat → Option SC.State
+  | 0 => some sc
+  | n + 1 => match SC.step chk sc (.run 0 0) with
+    | some sc' => soloSc sc' n
+    | none => none
+
+def soloRa (ra : RA.State) : Nat → Option RA.State
+  | 0 => some ra
+  | n + 1 =>
+    let ts := match (ra.thr 0).loc.next with
+      | .load l _ => (ra.mem l).length - 1
+      | _ => 0
+    match RA.step chk ra (.run 0 ts) with
+    | some ra' => soloRa ra' n
+    | none => none
+
+/-- What a solo call of `op` (taking `n` steps) returns from the initial state, on both machines
+(`model-disagree` if they differ or the call has not finished). -/
+def soloInit (k : Kind) (op : Op) (n : Nat) : String :=
+  let a := match SC.step chk (SC.init v0) (.start 0 op) with
+    | some sc => (soloSc sc n).bind (fun sc' => fmtEnd k (sc'.thr 0))
+    | none => none
+  let b := match RA.step chk (RA.init v0) (.start 0 op) with
+    | some ra => (soloRa ra n).bind (fun ra' => fmtEnd k (ra'.thr 0).loc)
+    | none => none
+  match a, b with
+  | some x, some y => if x = y then x else "model-disagree"
+  | _, _ => "model-disagree"
+
+/-- The object `new()` builds, as the model sees it: `SC.init v0` and `RA.init v0` (one initial
+message per location, empty views). -/
+def describeInit : String :=
+  let sc := SC.init v0
+  let ra := RA.init v0
+  let wordsSc := locs.map (fun l => fmtVal (sc.mem l))
+  let wordsRa := locs.map (fun l => match ra.mem l with | [m] => fmtVal m.val | _ => "?")
+  let lock := (if sc.held.isSome || ra.held.isSome then "held" else "free") ++ "," ++
+    (if sc.poisoned || ra.poisoned then "poisoned" else "clean")
+  if wordsSc != wordsRa then "model-disagree" else
+  "words=" ++ ",".intercalate wordsSc ++ ";lock=" ++ lock ++ ";sequence:" ++ soloInit .sequence .sequence 1 ++
+    ";snapshot:" ++ soloInit .snapshot .snapshot 4
+-- END track apileft (abt)
+
 def step (s : St) : List String → St × List String
+  | ["new_default"] => (s, ["new:" ++ describeInit ++ " default:" ++ describeInit])
   | "trace" :: rest =>
     match parseOp rest with
     | some (k, op, [script]) =>
